@@ -27,6 +27,7 @@
 #include <arpa/inet.h>
 #include <netinet/in.h>
 #include <sys/socket.h>
+#include <sched.h>
 #include <unistd.h>
 
 #include <sstream>
@@ -293,6 +294,7 @@ struct Scn
   Op a, b;
   Teardown td;
   int qP, tP;
+  bool opsFirst = false; // the operation threads get to run before the teardown actor's first step (default order only)
 };
 
 void runGeneric(const Scn &sc)
@@ -326,6 +328,8 @@ void runGeneric(const Scn &sc)
     th.emplace_back([&]() { runOp(w, sc.a, "A"); });
   if (sc.b != OP_NONE)
     th.emplace_back([&]() { runOp(w, sc.b, "B"); });
+  if (sc.opsFirst)
+    sched_yield(); // the others run first by default; "teardown first" stays reachable with one preemption
   mc_label("main:teardown");
   if (sc.td == TD_DROP || sc.td == TD_STOP_DROP)
   {
@@ -546,6 +550,9 @@ const Scn SCN[] = {
   {"tcp_stop_then_drop_vs_connectSync", false, OP_CONNECT_SYNC, OP_NONE, TD_STOP_DROP, 1, 2},
   {"tcp_stop_vs_send_close_connect", false, OP_SEND_CLOSE, OP_CONNECT, TD_STOP, 1, 2},
   {"tcp_stop_vs_addListener", false, OP_ADD_LISTENER, OP_NONE, TD_STOP, 2, 3},
+  {"tcp_addListener_started_then_stop", false, OP_ADD_LISTENER, OP_NONE, TD_STOP, 2, 3, true},
+  {"tcp_connect_send_started_then_stop", false, OP_SEND_CLOSE, OP_CONNECT, TD_STOP, 2, 2, true},
+  {"udp_addListener_started_then_stop", true, OP_ADD_LISTENER, OP_NONE, TD_STOP, 2, 3, true},
   {"tcp_stop_vs_stats_receive", false, OP_STATS, OP_RECEIVE_SYNC, TD_STOP, 1, 2},
   {"tcp_stop_twice_vs_connect", false, OP_CONNECT, OP_NONE, TD_STOP_TWICE, 2, 3},
   {"udp_stop_vs_send_close_connect", true, OP_SEND_CLOSE, OP_CONNECT, TD_STOP, 1, 2},
